@@ -681,7 +681,7 @@ def first_month_hour(month, years):
     fmh = 1
     if month > 1:
         for i in range(1, month):
-            current_year = years[(month - 1) // 12] if len(years) > 1 else years[0]
+            current_year = years[(i - 1) // 12] if len(years) > 1 else years[0]
             mi = i % 12
             fmh = fmh + HRS_IN_DAY * monthdays(mi, current_year)
     return fmh
@@ -690,7 +690,7 @@ def first_month_hour(month, years):
 def last_month_hour(month, years):
     lmh = 0
     for i in range(1, month + 1):
-        current_year = years[(month - 1) // 12] if len(years) > 1 else years[0]
+        current_year = years[(i - 1) // 12] if len(years) > 1 else years[0]
         lmh = lmh + monthdays(i, current_year) * HRS_IN_DAY
     if month == 1:
         lmh = 31 * HRS_IN_DAY
